@@ -3717,7 +3717,7 @@ func runBLOCKKEEP(c *Ctx, r *Result, rule string) int {
 		if ok2 {
 			o.Verdict, o.Reason = Discharged, "the optimised block is a *BlockNode"
 		} else {
-			o.Verdict, o.Reason = Finding, "(*BlockNode).optimize can return " + describeVal(ret.Results[0]) + ", which is not a block: the parentheses are gone and what follows the expression is judged as if they had not been written (a predicate or a second group after a parenthesised group becomes a compile error)"
+			o.Verdict, o.Reason = Finding, "(*BlockNode).optimize can return "+describeVal(ret.Results[0])+", which is not a block: the parentheses are gone and what follows the expression is judged as if they had not been written (a predicate or a second group after a parenthesised group becomes a compile error)"
 		}
 		r.Add(o)
 	}
@@ -3795,9 +3795,9 @@ func runSORTVALID(c *Ctx, r *Result, rule string) int {
 				}
 			}
 			if behind {
-				o.Verdict, o.Reason = Discharged, "the value is returned behind the err == nil edge of " + shortFn(vcalls[0].Call.StaticCallee())
+				o.Verdict, o.Reason = Discharged, "the value is returned behind the err == nil edge of "+shortFn(vcalls[0].Call.StaticCallee())
 			} else {
-				o.Verdict, o.Reason = Finding, "a value is returned without the sort keys having been evaluated and checked by " + shortFn(vcalls[0].Call.StaticCallee()) + ": for the inputs that take this path a key of a non-sortable type is not an error"
+				o.Verdict, o.Reason = Finding, "a value is returned without the sort keys having been evaluated and checked by "+shortFn(vcalls[0].Call.StaticCallee())+": for the inputs that take this path a key of a non-sortable type is not an error"
 			}
 			r.Add(o)
 		}
@@ -3844,7 +3844,7 @@ func runFILTERALL(c *Ctx, r *Result, rule string) int {
 			if isCall && staticName(item) == "reflect.Value.Index" && len(item.Call.Args) == 2 && isItems[item.Call.Args[0]] {
 				o.Verdict, o.Reason = Discharged, "the filter is evaluated with an element of the item list as its context"
 			} else {
-				o.Verdict, o.Reason = Finding, "the filter is evaluated against " + describeVal(d) + ", not against an item of the list: the predicate is not evaluated once per item with that item as context"
+				o.Verdict, o.Reason = Finding, "the filter is evaluated against "+describeVal(d)+", not against an item of the list: the predicate is not evaluated once per item with that item as context"
 			}
 			r.Add(o)
 		}
@@ -3898,7 +3898,7 @@ func runFILTERALL(c *Ctx, r *Result, rule string) int {
 			}
 		}
 		if bad != "" {
-			o.Verdict, o.Reason = Finding, "the loop over the items can be left from inside its body towards the successful return at " + bad + ": the items after the current one are neither judged nor kept"
+			o.Verdict, o.Reason = Finding, "the loop over the items can be left from inside its body towards the successful return at "+bad+": the items after the current one are neither judged nor kept"
 		} else {
 			o.Verdict, o.Reason = Discharged, "the loop over the items is left only by its bound test or by error returns"
 		}
@@ -4005,7 +4005,7 @@ func runHOFARGS(c *Ctx, r *Result, rule string, fns []*ssa.Function) int {
 				if A == X || (bndCtx != nil && A != nil && bndCtx.canon(A) == bndCtx.canon(X)) {
 					o.Verdict, o.Reason = Discharged, "the third callback argument is the array the member was read from"
 				} else {
-					o.Verdict, o.Reason = Finding, "the callback's whole-array argument is " + describeVal(A) + " while the member is read from " + describeVal(X) + ": for an argument that is not an array the callback sees the bare value instead of the one-member array it stands for"
+					o.Verdict, o.Reason = Finding, "the callback's whole-array argument is "+describeVal(A)+" while the member is read from "+describeVal(X)+": for an argument that is not an array the callback sees the bare value instead of the one-member array it stands for"
 				}
 				r.Add(o)
 			}
@@ -4117,9 +4117,9 @@ func runREFLTYPE(c *Ctx, r *Result, rule string, fns []*ssa.Function) int {
 			a := root(ci.Common().Args[0], map[*ssa.Function]bool{}, 0)
 			b := root(ci.Common().Args[1], map[*ssa.Function]bool{}, 0)
 			if a != "" && a != "*" && (b == a || b == "*") {
-				o.Verdict, o.Reason = Discharged, "both operands are slices made with reflect.MakeSlice(" + a + ", …)"
+				o.Verdict, o.Reason = Discharged, "both operands are slices made with reflect.MakeSlice("+a+", …)"
 			} else {
-				o.Verdict, o.Reason = Finding, "reflect.AppendSlice panics when its operands have different slice types, and the second operand (" + describeVal(ci.Common().Args[1]) + ") is not, on every path, a slice made with the same type as the first: a typed slice such as the []string of $split or $keys reaches it"
+				o.Verdict, o.Reason = Finding, "reflect.AppendSlice panics when its operands have different slice types, and the second operand ("+describeVal(ci.Common().Args[1])+") is not, on every path, a slice made with the same type as the first: a typed slice such as the []string of $split or $keys reaches it"
 			}
 			r.Add(o)
 		}
@@ -4458,7 +4458,7 @@ func runPAIR(c *Ctx, r *Result, rule string, fns []*ssa.Function) int {
 				o.Verdict, o.Reason = Discharged, "the error is nil on this path"
 			default:
 				o.Nontrivial = true
-				o.Verdict, o.Reason = Finding, "a node (" + describeVal(v) + ") is returned together with an error that may be non-nil (" + describeVal(e) + "): callers that test only the error are fine, but jparse.Parse hands the pair out — a non-nil, half-built expression next to an error"
+				o.Verdict, o.Reason = Finding, "a node ("+describeVal(v)+") is returned together with an error that may be non-nil ("+describeVal(e)+"): callers that test only the error are fine, but jparse.Parse hands the pair out — a non-nil, half-built expression next to an error"
 			}
 			r.Add(o)
 		}
@@ -4503,9 +4503,9 @@ func runERRIS(c *Ctx, r *Result, rule string, fns []*ssa.Function) int {
 				}
 			}
 			if name == "ErrUndefined" {
-				o.Verdict, o.Reason = Finding, "an error is compared with the ErrUndefined sentinel by errors." + g.Name() + ": an error that wraps the sentinel counts as \"no value\" and is swallowed instead of becoming Eval's error"
+				o.Verdict, o.Reason = Finding, "an error is compared with the ErrUndefined sentinel by errors."+g.Name()+": an error that wraps the sentinel counts as \"no value\" and is swallowed instead of becoming Eval's error"
 			} else {
-				o.Verdict, o.Reason = Discharged, "errors." + g.Name() + " against something other than the no-value sentinel"
+				o.Verdict, o.Reason = Discharged, "errors."+g.Name()+" against something other than the no-value sentinel"
 			}
 			r.Add(o)
 		}
@@ -4658,7 +4658,7 @@ func runACCFRESH(c *Ctx, r *Result, rule string) int {
 		if fresh(call.Call.Args[0], 0) {
 			o.Verdict, o.Reason = Discharged, "the survivors are appended to a list made with reflect.MakeSlice for them"
 		} else {
-			o.Verdict, o.Reason = Finding, "the survivors are appended to " + describeVal(call.Call.Args[0]) + ", which is not (on every path and at every call) a list made for them: collecting them in a re-slice of the list being filtered overwrites items that have not been read yet when one item is kept more than once"
+			o.Verdict, o.Reason = Finding, "the survivors are appended to "+describeVal(call.Call.Args[0])+", which is not (on every path and at every call) a list made for them: collecting them in a re-slice of the list being filtered overwrites items that have not been read yet when one item is kept more than once"
 		}
 		r.Add(o)
 	}
@@ -4716,11 +4716,21 @@ func runSORTGATE(c *Ctx, r *Result, rule string) int {
 			}
 			ord++
 			n++
-			v := ci.Common().Args[0]
+			// jtypes.Resolve of a value is the same array seen through its interface/pointer wrappers
+			unresolved := func(v ssa.Value) ssa.Value {
+				for {
+					rc, ok := v.(*ssa.Call)
+					if !ok || rc.Call.StaticCallee() == nil || shortFn(rc.Call.StaticCallee()) != "jtypes.Resolve" || len(rc.Call.Args) != 1 {
+						return v
+					}
+					v = rc.Call.Args[0]
+				}
+			}
+			v := unresolved(ci.Common().Args[0])
 			o := Obligation{Rule: rule, Key: fmt.Sprintf("%s:%s#%d", shortFn(f), g.Name(), ord), Fn: shortFn(f), Pos: c.W.Pos(ci.Pos()), Nontrivial: true}
 			gated := domGuard(ci.Block(), func(cond ssa.Value) (int, bool) {
 				m, ok := cond.(*ssa.Call)
-				if !ok || m.Call.StaticCallee() == nil || shortFn(m.Call.StaticCallee()) != "jtypes.IsArrayOf" || len(m.Call.Args) != 2 || m.Call.Args[0] != v {
+				if !ok || m.Call.StaticCallee() == nil || shortFn(m.Call.StaticCallee()) != "jtypes.IsArrayOf" || len(m.Call.Args) != 2 || unresolved(m.Call.Args[0]) != v {
 					return 0, false
 				}
 				return 0, true
@@ -4728,7 +4738,7 @@ func runSORTGATE(c *Ctx, r *Result, rule string) int {
 			if gated {
 				o.Verdict, o.Reason = Discharged, "called on the true edge of jtypes.IsArrayOf on the same array: every member has the type the collector keeps"
 			} else {
-				o.Verdict, o.Reason = Finding, g.Name() + " leaves out members of another type without an error, and this call is not behind jtypes.IsArrayOf on the same array: an array with one member of another type is sorted with that member silently dropped"
+				o.Verdict, o.Reason = Finding, g.Name()+" leaves out members of another type without an error, and this call is not behind jtypes.IsArrayOf on the same array: an array with one member of another type is sorted with that member silently dropped"
 			}
 			r.Add(o)
 		}
@@ -4783,7 +4793,7 @@ func runLEDLOOP(c *Ctx, r *Result, rule string) int {
 			if k, ok := intConstOf(ci.Common().Args[1]); ok && k == 0 {
 				o.Verdict, o.Reason = Discharged, "an item of a delimited list is parsed with parseExpression(0)"
 			} else {
-				o.Verdict, o.Reason = Finding, "a loop outside parseExpression parses operands with a binding power that is not 0 (" + describeVal(ci.Common().Args[1]) + "): a second operator loop, which takes following operators without regard to the right binding power of the expression it is part of"
+				o.Verdict, o.Reason = Finding, "a loop outside parseExpression parses operands with a binding power that is not 0 ("+describeVal(ci.Common().Args[1])+"): a second operator loop, which takes following operators without regard to the right binding power of the expression it is part of"
 			}
 			r.Add(o)
 		}
